@@ -44,7 +44,7 @@ namespace OpenMEEG {
     /// pseudo inverse
     Matrix Matrix::pinverse(const double tolrel) const {
         if (ncol()>nlin())
-            return transpose().pinverse().transpose();
+            return transpose().pinverse(tolrel).transpose();
 
         Matrix U,V;
         SparseMatrix S;
